@@ -72,6 +72,15 @@ func kindOfType(t ast.Expr, syncNames, atomicNames map[string]bool) string {
 				return "atomic"
 			}
 			return ""
+		case *ast.ChanType:
+			return "chan"
+		case *ast.CallExpr: // make(chan T, n)
+			if id, ok := v.Fun.(*ast.Ident); ok && id.Name == "make" && len(v.Args) > 0 {
+				if _, ok := v.Args[0].(*ast.ChanType); ok {
+					return "chan"
+				}
+			}
+			return ""
 		case *ast.CompositeLit:
 			t = v.Type
 			continue
@@ -249,10 +258,18 @@ func (r *rewriter) block(list []ast.Stmt) []ast.Stmt {
 				out = append(out, r.yield(v.Pos(), "select"))
 			}
 		case *ast.RangeStmt:
-			// ranging over a channel cannot be told from ranging over a
-			// slice without types; a yield at the head of every loop body
-			// would be far too many. Channel ranges in the tree under test
-			// carry hand-placed hooks.
+			// ranging over a channel: recognised when the ranged identifier
+			// is declared with a channel type in this package (parameter,
+			// var, make(chan ...)). A scheduling point before the loop and
+			// one before every further receive (end of the body).
+			if r.kinds[lastName(v.X)] == "chan" {
+				if !prevHooked {
+					out = append(out, r.yield(v.Pos(), "range"))
+				}
+				if n := len(v.Body.List); n == 0 || !isYieldCall(v.Body.List[n-1]) {
+					v.Body.List = append(v.Body.List, r.yield(v.Body.Rbrace, "range-next"))
+				}
+			}
 		case *ast.ExprStmt, *ast.AssignStmt, *ast.ReturnStmt, *ast.IncDecStmt, *ast.DeclStmt:
 			if isYieldCall(s) {
 				break
